@@ -152,7 +152,7 @@ static std::string handle(const std::string& cmd, const std::string& args) {
         }
     return "";
   }
-  if (cmd == "orbit") {
+  if (cmd == "o_orbit") {
     // property oracle evaluated on the implementation: number of orbit members (incl. Friedel) inside the ASU
     long long row = to_ll(w.at(0)); bool tnt = to_ll(w.at(1)) != 0; int N = (int) to_ll(w.at(2));
     const SpaceGroup& sg = spacegroup_tables::main[row];
@@ -178,7 +178,7 @@ static std::string handle(const std::string& cmd, const std::string& args) {
                     std::to_string(members.size());
           }
         }
-    return std::to_string(nbad) + (nbad ? " first " + bad : "");
+    return nbad == 0 ? std::string("ok") : std::to_string(nbad) + " bad, first " + bad;
   }
 
   // ---- property oracles evaluated on the implementation (used to search for a failing input) ----
